@@ -114,6 +114,8 @@ def check_call_bindings(ctx, algo, ncls):
     computed delta_tilde."""
     model = ctx.model
     c = model.cls(algo)
+    if algo in ("HCT", "VHCT"):
+        name_delta_sites(model, algo)
     n = 0
     for fn in c.methods.values():
         for call in ast.walk(fn):
@@ -147,6 +149,75 @@ def is_delta_def(s):
         return True
     f = norm_src(s.value.func)
     return f in ("np.minimum", "min", "numpy.minimum", "np.fmin") and any(is_self_attr(y, "delta") for y in ast.walk(s.value))
+
+
+def is_delta_call(e):
+    if not isinstance(e, ast.Call):
+        return False
+    f = norm_src(e.func)
+    return f in ("np.minimum", "min", "numpy.minimum", "np.fmin") and any(is_self_attr(y, "delta") for y in ast.walk(e))
+
+
+_NAMED = set()
+
+
+def name_delta_sites(model, algo):
+    """A delta~ computation written in place (`math.log(1 / np.minimum(1/2, self.c1 * self.delta / t_plus))`) is given a name:
+    `delta_tilde_k = np.minimum(..)` is placed directly in front of the statement that contains it and the statement reads the
+    local.  The expression is pure (attribute reads, locals, arithmetic), and the statement may evaluate nothing with a side
+    effect before it, so this is the same computation; the delta~ rules then treat written-out and named forms alike."""
+    if (id(model), algo) in _NAMED:
+        return
+    _NAMED.add((id(model), algo))
+    c = model.cls(algo)
+    k = [0]
+    for fn in c.methods.values():
+        changed = False
+        for node in ast.walk(fn):
+            for field in ("body", "orelse"):
+                blk = getattr(node, field, None)
+                if not (isinstance(blk, list) and blk and isinstance(blk[0], ast.stmt)):
+                    continue
+                i = 0
+                while i < len(blk):
+                    st = blk[i]
+                    i += 1
+                    if not isinstance(st, (ast.Expr, ast.Assign, ast.AugAssign, ast.Return)) or getattr(st, "value", None) is None:
+                        continue
+                    if isinstance(st, ast.Assign) and len(st.targets) == 1 and isinstance(st.targets[0], ast.Name) and is_delta_call(st.value):
+                        continue
+                    sites = [x for x in ast.walk(st.value) if is_delta_call(x) and not any(is_delta_call(y) for y in ast.walk(x) if y is not x)]
+                    if len(sites) != 1:
+                        continue
+                    site = sites[0]
+                    # nothing with a side effect may be evaluated in the statement at all, except the outermost call itself
+                    # (its arguments are evaluated first) and getters
+                    calls = [x for x in ast.walk(st.value) if isinstance(x, ast.Call) and x is not st.value and not any(x is y for y in ast.walk(site))]
+                    if any(not (norm_src(x.func).startswith(("np.", "math.", "numpy.")) or (isinstance(x.func, ast.Attribute) and x.func.attr.startswith("get_")))
+                           for x in calls):
+                        continue
+                    if any(isinstance(x, (ast.Lambda, ast.GeneratorExp, ast.ListComp, ast.IfExp, ast.BoolOp)) for x in ast.walk(st.value)):
+                        continue
+                    k[0] += 1
+                    name = "delta_tilde_%d" % k[0]
+                    new = ast.Assign(targets=[ast.Name(id=name, ctx=ast.Store())], value=site)
+                    ast.copy_location(new, st)
+
+                    class Rep(ast.NodeTransformer):
+                        def visit_Call(self, n):
+                            if n is site:
+                                return ast.copy_location(ast.Name(id=name, ctx=ast.Load()), n)
+                            return self.generic_visit(n)
+                    st.value = Rep().visit(st.value)
+                    ast.fix_missing_locations(new)
+                    ast.fix_missing_locations(st)
+                    blk.insert(i - 1, new)
+                    i += 1
+                    changed = True
+        if changed:
+            for n in ast.walk(fn):
+                for ch in ast.iter_child_nodes(n):
+                    model.parent[id(ch)] = n
 
 
 def delta_vars(fn):
@@ -198,6 +269,7 @@ def delta_sites(ctx, algo, rule="R05-DELTA", only_tau=False):
         okc = all(SX.equivalent(p.stores["c1"], (rho / (3 * nu)) ** sp.Rational(1, 8))[0] is True for p in ps if not p.raises and "c1" in p.stores)
     ctx.ob("R05-DELTA", okc, file, "%s.__init__" % algo, "c1 = (rho/(3 nu))^(1/8)", "matches" if okc else "c1 differs from the published constant", init.lineno)
     n = 0
+    name_delta_sites(model, algo)
     for fn in c.methods.values():
         for s in ast.walk(fn):
             if is_delta_def(s):
@@ -217,6 +289,24 @@ def delta_sites(ctx, algo, rule="R05-DELTA", only_tau=False):
                 # value of delta_tilde in front of the first loop / at exit
                 states = [st2 for (_, st2) in Sm.at_loop] + ps
                 vals = [p.locals.get(var) for p in states if p.locals.get(var) is not None]
+                # a definition inside a loop body: evaluated on the state in front of the outermost enclosing loop, provided it is
+                # loop-invariant (nothing it reads is assigned inside that loop)
+                encl = [l for (l, _) in Sm.at_loop if any(x is s for x in ast.walk(l))]
+                if encl:
+                    L = encl[0]
+                    st0 = [q for (l, q) in Sm.at_loop if l is L][0]
+                    rd = {x.id for x in ast.walk(s.value) if isinstance(x, ast.Name)}
+                    wr = {x.id for x in ast.walk(L) if isinstance(x, ast.Name) and isinstance(x.ctx, ast.Store)} - {var}
+                    wa = {x.attr for x in ast.walk(L) if is_self_attr(x) and isinstance(x.ctx, ast.Store)}
+                    ra = {x.attr for x in ast.walk(s.value) if is_self_attr(x)}
+                    if not (rd & wr) and not (ra & wa):
+                        try:
+                            Sm.cur = st0
+                            vals = [Sm.T.tr(s.value)]
+                        except SX.Untranslatable:
+                            vals = []
+                    else:
+                        vals = []
                 it = sp.Symbol("iteration", positive=True)
                 tplus = 2 ** sp.ceiling(sp.log(it) / sp.log(2))
                 # the cap depends on what this delta~ feeds (instances confirmed on the reference tree): thresholds use
@@ -249,6 +339,7 @@ def delta_sites(ctx, algo, rule="R05-DELTA", only_tau=False):
 def check_tau(ctx, algo):
     model = ctx.model
     c = model.cls(algo)
+    name_delta_sites(model, algo)
     if algo == "HCT":
         fn = model.own_method("HCT", "optTraverse")
         qual = "HCT.optTraverse"
